@@ -12,6 +12,10 @@ class Construction:
     Returns:
       list of str
     """
+    if "_positional_fieldnames" not in self.__dict__:
+      # instance created from a dictionary (e.g. by clone())
+      self._positional_fieldnames = [k for k in self._data.keys() \
+          if k.startswith("field") and k[5:].isdigit()]
     return self._positional_fieldnames
 
   @property
